@@ -258,7 +258,7 @@ def r3(cx, rec):
                 fresh = h[0] == 'call' and h[1].endswith('Sha1::new')
                 rec.need(fresh, 'writer-hasher-shared', cf, ub,
                          'the chunk closure updates a hasher that is not created inside it (%s): piece k would get the hash of chunks 0..k' % show(cf.expr_call(ub)[2][0])[:40])
-                rec.need(access_path(cf.expr_call(ub)[2][1]) == mirq.closure_param(cf), 'writer-hash-input', cf, ub, 'hasher is fed %s' % show(cf.expr_call(ub)[2][1])[:40])
+                rec.need(access_path(cf.expr_call(ub)[2][1]) == mirq.closure_param(cf, 2 if cf.kind == 'Closure' else 1), 'writer-hash-input', cf, ub, 'hasher is fed %s' % show(cf.expr_call(ub)[2][1])[:40])
 
 
 @TABLE.rule('4', 'K7', 'both `length` and `files` present, or neither: error', floor=2)
